@@ -152,7 +152,7 @@ def one_project(rep, rng, idx, odd_names):
             only_m = list((mk - nk).elements())[:3]
             only_n = list((nk - mk).elements())[:3]
             diff_recs = list((mk - nk).elements()) + list((nk - mk).elements())
-            semi = all(semicolon_class('make', [a for a in k[0]]) for k in diff_recs if k and k[0] != 'FAILED')
+            semi = any(semicolon_class('make', [a]) for k in diff_recs if k and k[0] != 'FAILED' for a in k[0])
             bad += rep.fail('Make and Ninja start different processes: only make %r ; only ninja %r' % (only_m, only_n),
                             {'script': p.script(), 'conf_args': conf_args, 'conf_env': conf_env, 'only_make': only_m, 'only_ninja': only_n,
                              'files': sorted(p.files)}, classes=('target-flag-semicolon',) if semi and diff_recs else ())
@@ -171,7 +171,8 @@ def one_project(rep, rng, idx, odd_names):
                 if args not in have:
                     near = [h for h in have if h and h[-1] == args[-1]][:1]
                     bad += rep.fail('compile_commands.json entry differs from the command Make runs: %r vs %r' % (args, near),
-                                    {'script': p.script(), 'entry': e, 'make_argv_same_output': near, 'conf_env': conf_env})
+                                    {'script': p.script(), 'entry': e, 'make_argv_same_output': near, 'conf_env': conf_env},
+                                    classes=('target-flag-semicolon',) if any(semicolon_class('make', [a]) for a in args) else ())
                 if canon(e['directory'], subs) != '$B':
                     bad += rep.fail('compile_commands.json directory %r is not the build directory' % e['directory'], {'entry': e})
         # same buildable targets and (plain names) same dependency relation
